@@ -240,6 +240,14 @@ fn exec_cmd(args: &[String]) {
         };
         let next = if gen == "faults" { ['d', 'r', 'p', 's'][r.below(4) as usize] } else { 'd' };
         let nest = r.chance(1, 4);
+        // one fault case in five: 3..8 compatible systems (one stage), the first two panic in the same dispatch; the later
+        // single panic of the harness (the last system) must then surface with its own payload
+        let (regs, faults, calls, mode) = if gen == "faults" && r.chance(1, 5) {
+            let n = 3 + r.below(6) as u32;
+            let regs: Vec<prog::Reg> = (1..=n).map(|t| prog::Reg::Sys { tag: t, name: format!("s{}", t), deps: vec![], reads: vec![], writes: vec![40 + t],
+                                                                      time: 3, kind: prog::SysKind::Dynamic }).collect();
+            (regs, vec![1, 2], vec!['d'], if r.chance(1, 2) { exec::Mode::Free } else { exec::Mode::Jitter(r.next()) })
+        } else { (regs, faults, calls, mode) };
         let c = exec::ExecCase { map, pool, mode, calls, faults, next, nest, regs };
         out.flush().unwrap();
         watch.begin(format!("{} :: {}", c.head(), prog::to_text(&c.regs)), CASE_BUDGET_MS);
